@@ -124,6 +124,32 @@ def evaluate(pid, name=None, tier="quick"):
     # evidence files were overwritten by runs on a modified tree: the caller re-runs the check on the clean tree
 
 
+def table():
+    """markdown table for DESIGN.md §9.4 from the meta.json files"""
+    import re
+    rows = []
+    for pid in sorted(os.listdir(os.path.join(VERIF, "seeded"))):
+        for n in sorted(os.listdir(os.path.join(VERIF, "seeded", pid))):
+            d = os.path.join(VERIF, "seeded", pid, n)
+            meta = json.load(open(os.path.join(d, "meta.json")))
+            title = ""
+            rp = os.path.join(d, "README.agent.md")
+            if os.path.exists(rp):
+                for line in open(rp):
+                    if line.startswith("#"):
+                        title = re.sub(r"^#+\s*", "", line).strip()
+                        title = re.sub(r"^(C\d\d\s*)?(/|-|—|–)?\s*(mutant\s*)?m\d\s*(:|-|—|–)?\s*", "", title, flags=re.I)
+                        break
+            q = meta.get("check_results", {}).get("quick", {})
+            t = meta.get("check_results", {}).get("thorough", {})
+            sig = ", ".join("`%s`" % x for x in (q.get("signatures") or t.get("signatures") or [])[:3])
+            note = meta.get("strengthened", "")
+            rows.append("| %s %s | %s | %s%s | %s | %s |" % (pid, n, title.replace("|", "/")[:150], q.get("verdict", "-"), (" / thorough: " + t["verdict"]) if t else "", sig, note))
+    print("| change | what it does | quick tier | reported as | check strengthened for it |")
+    print("|---|---|---|---|---|")
+    print("\n".join(rows))
+
+
 if __name__ == "__main__":
     a = sys.argv[1:]
     if a[0] == "verify":
@@ -134,6 +160,8 @@ if __name__ == "__main__":
             del a[i:i + 2]
         ok = verify(a[1], a[2], a[3], a[4], a[5], feats)
         sys.exit(0 if ok else 1)
+    elif a[0] == "table":
+        table()
     elif a[0] == "eval":
         tier = "quick"
         if "--tier" in a:
